@@ -97,6 +97,8 @@ def run(tier, seed, t0):
     # the decoder of C1 itself: a modified tag byte or a non-canonical coordinate is a modified C1 and must not decode
     import c19
     jobs += [lambda: c19.ob_from_byte_lengths(33), lambda: c19.ob_from_byte_lengths(65)]
+    import c11
+    jobs += [lambda: c11.l3_point("Point::is_valid", 1, c11.chk_valid, "is_valid"), lambda: c11.l3_point("Point::is_valid_affine_point", 1, c11.chk_valid_affine, "is_valid_affine_point")]
     res = run_parallel(jobs, nproc=14)
     return finish("C06", tier, seed, "model_checking", res, t0,
                   assumptions=["hash, point decoding, group and field layers are uninterpreted functions: the verdict holds for every behaviour of those layers",
